@@ -154,6 +154,18 @@ func VerifC06_batchV2() {
 	verifReached("c06-batch-v2")
 }
 
+// One v2 batch with one record whose timestamp delta needs a 5- or 6-byte varint (beyond
+// +-2^31 ms, about 25 days): the record's timestamp is still firstTimestamp + delta.
+func VerifC06_batchV2WideTimestampDelta() {
+	cfg := verifC06SymCfg()
+	verifAssume(cfg.isolation == 0)
+	shapes := [2]int{verifChoose(2), 0}
+	u := verifC06SymBatch(1, shapes, 5+verifChoose(2))
+	data := u.encode(nil)
+	verifC06Check(cfg, []*verifRefUnit{u}, data, 1, nil)
+	verifReached("c06-batch-v2-wide-ts-delta")
+}
+
 // One or two uncompressed magic-0 / magic-1 messages, everything symbolic.
 func VerifC06_messages() {
 	cfg := verifC06SymCfg()
@@ -252,6 +264,52 @@ func VerifC06_mixed() {
 	}
 	verifC06Check(cfg, units, data, len(units), nil)
 	verifReached("c06-mixed")
+}
+
+// The real timeFromMillis on boundary samples (its 64-bit multiply/divide is beyond the
+// solver, see verifTimeFromMillis): the returned time is that many ms after the epoch.
+// Same sequences with CRC validation enabled (the CRC table and coverage differ per unit format).
+func VerifC06_mixedCRC() {
+	cfg := verifC06SymCfg()
+	verifAssume(cfg.isolation == 0)
+	verifAssume(!cfg.disableCRC) // CRC validation on: each unit is checked with the table of ITS format (IEEE for v0/v1, Castagnoli for v2)
+	var kinds []int
+	plain := !verifThorough() // only CreateTime data batches
+	if verifThorough() {
+		// every pair with free attributes; every triple of {v1 message, 1-record batch, empty
+		// batch} with CreateTime data batches
+		if verifChoose(2) == 0 {
+			kinds = []int{verifChoose(verifNumKinds), verifChoose(verifNumKinds)}
+		} else {
+			pick := [3]int{verifKindV1, verifKindBatch1, verifKindBatchEmpty}
+			kinds = []int{pick[verifChoose(3)], pick[verifChoose(3)], pick[verifChoose(3)]}
+			plain = true
+		}
+	} else if verifChoose(2) == 0 {
+		// ten ordered pairs of kinds: every kind first and second, with two different partners
+		first := verifChoose(verifNumKinds)
+		kinds = []int{first, (first + 1 + 2*verifChoose(2)) % verifNumKinds}
+	} else {
+		// three units: first from {v1 message, 1-record batch}, then one of these or an empty
+		// batch, then a 1-record batch
+		pick := [3]int{verifKindV1, verifKindBatch1, verifKindBatchEmpty}
+		kinds = []int{pick[verifChoose(2)], pick[verifChoose(3)], verifKindBatch1}
+	}
+	var units []*verifRefUnit
+	var data []byte
+	prevLast := int64(-1)
+	for i, k := range kinds {
+		u := verifC06Unit(k, i)
+		verifAssume(u.firstOffset() > prevLast)
+		prevLast = u.lastOffset()
+		if u.magic == 2 && plain {
+			verifAssume(u.attrs&0x28 == 0) // control batches, LogAppendTime: VerifC06_batchV2
+		}
+		units = append(units, u)
+		data = u.encode(data)
+	}
+	verifC06Check(cfg, units, data, len(units), nil)
+	verifReached("c06-mixed-crc")
 }
 
 // The real timeFromMillis on boundary samples (its 64-bit multiply/divide is beyond the
